@@ -29,9 +29,12 @@ _CODEC_NOTE = ('Proved for all inputs (no bound): every integer / list-header / 
                'incl. the last, first match, secondary fall-back; ReadDecoder.getToken / getTokenDouble) are under discharged contracts '
                '(contracts/C01_tokens.py).  writeString / writeJid / readString are under contracts that pin the CHOICE of wire form and the '
                'arguments handed to the leaf writers / readers (token vs. JID split at the first @ vs. literal, one reader per token class), with '
-               'the callees as events (contracts/C01_strings.py) - not a functional spec of the recursion.  The tree functions (writeInternal, '
-               'writeAttributes, nextTreeInternal, readList, readAttributes) and the end-to-end round trip of strings and trees are decided by '
-               'the bounded stand-in only.')
+               'the callees as events (contracts/C01_strings.py) - not a functional spec of the recursion; likewise the tree level: writeInternal '
+               '(list header 1 + 2*attributes + content + children, then tag, attributes, content, children count and every child once in order '
+               '- loop invariant over the child events) and nextTreeInternal (header, tag, (size-1)/2 attribute pairs, exactly one content reader '
+               'for an even size), and the flags byte of getProtocolTreeNode (zlib stream when bit 2 is set).  writeAttributes / readAttributes / '
+               'readList (iteration over a symbolic dict / list of recursive results) and the END-TO-END round trip of strings and trees are '
+               'decided by the bounded stand-in only.')
 
 PROPS['C01'] = {
     'sidecars': ['contracts/C01_codec.py', 'contracts/C01_tokens.py', 'contracts/C01_strings.py'],
